@@ -449,6 +449,22 @@ def uncovered_pd_path(
         # we now want to start on the second_node
         start_node = second_node
 
+    def _pd_edge(i, j):
+        # The edge i *-* j is potentially directed from i to j if there is no arrowhead
+        # at i and no tail at j, i.e. i -> j, i o-> j, i o-o j or i -o j. An edge i <-o j
+        # or i <-> j has an arrowhead at i. Circle paths need circles at both ends.
+        if graph.has_edge(j, i, graph.directed_edge_name) or graph.has_edge(
+            i, j, graph.bidirected_edge_name
+        ):
+            return False
+        if force_circle:
+            return graph.has_edge(i, j, graph.circle_edge_name) and graph.has_edge(
+                j, i, graph.circle_edge_name
+            )
+        return graph.has_edge(i, j, graph.circle_edge_name) or graph.has_edge(
+            i, j, graph.directed_edge_name
+        )
+
     # now add 'a' to the queue and begin exploring
     # adjacent nodes that are connected with bidirected edges
     path = deque([start_node])
@@ -482,13 +498,7 @@ def uncovered_pd_path(
 
             # now check that the triple is potentially directed, else
             # we skip this node
-            condition = graph.has_edge(this_node, next_node, graph.circle_edge_name)
-            if not force_circle:
-                # If we do not restrict to circle paths then directed edges are also OK
-                condition = condition or graph.has_edge(
-                    this_node, next_node, graph.directed_edge_name
-                )
-            if not condition:
+            if not _pd_edge(this_node, next_node):
                 continue
 
             # now this next node is potentially directed, does not
